@@ -26,4 +26,23 @@ mod verif_c16_wit {
         // without a tolerance the nearest edge is matched however far it is
         assert_eq!(search(coord! {x: -104.0f32, y: 39.7f32}, &rtree, None, &None, &None, &None, &None).unwrap(), Some(EdgeId(0)));
     }
+
+    /// the measure the r-tree orders its records by is taken to the SAME location the tolerance is measured to (the centroid of the record's geometry)
+    #[test]
+    fn c16_wit_tree_measure_and_tolerance_use_the_same_location() {
+        use geo::Centroid;
+        use rstar::PointDistance;
+        // an L-shaped road: one long leg east, a short leg north -- its centroid is NOT the middle of its bounding box, of its end points, or a vertex
+        let rec = EdgeRtreeRecord::new(
+            EdgeId(0),
+            LineString::from(vec![coord! {x: -105.000f32, y: 39.700f32}, coord! {x: -104.990f32, y: 39.700f32}, coord! {x: -104.990f32, y: 39.702f32}]),
+        );
+        let c = rec.geometry.centroid().unwrap();
+        assert!(rec.distance_2(&c) < 1e-9, "the tree's measure from the record's own location must be zero, got {}", rec.distance_2(&c));
+        // and that location is within a one-metre tolerance of the record
+        assert!(within_tolerance(Some((Distance::new(1.0), DistanceUnit::Meters)), &c.0, &rec).unwrap());
+        // moving away from it grows the tree's measure
+        let off = geo::Point::new(c.x() + 0.001, c.y());
+        assert!(rec.distance_2(&off) > rec.distance_2(&c));
+    }
 }
